@@ -994,7 +994,7 @@ func ruleTrailerEncrypt(c *core.Ctx) {
 		for _, s := range keys["ID"] {
 			if as, ok := s.(*ast.AssignStmt); ok {
 				o.At(fn.Site(as, "trailer /ID"))
-				o.Require(c.Prog.Src(as.Rhs[0]) == "Array{String(ID[0]),String(ID[1])}", "/ID is %s", c.Prog.Src(as.Rhs[0]))
+				o.Shape(c.Prog.Src(as.Rhs[0]) == "Array{String(ID[0]),String(ID[1])}", "/ID is %s", c.Prog.Src(as.Rhs[0]))
 			}
 		}
 		// Close writes the same ID
@@ -1002,7 +1002,7 @@ func ruleTrailerEncrypt(c *core.Ctx) {
 		for _, s := range core.DictKeysWritten(cl.Info(), cl.Decl, "pdf", "Dict")["ID"] {
 			if as, ok := s.(*ast.AssignStmt); ok {
 				o.At(cl.Site(as, "trailer /ID at Close"))
-				o.Require(c.Prog.Src(as.Rhs[0]) == "Array{String(w.meta.ID[0]),String(w.meta.ID[1])}", "Close writes /ID %s", c.Prog.Src(as.Rhs[0]))
+				o.Shape(c.Prog.Src(as.Rhs[0]) == "Array{String(w.meta.ID[0]),String(w.meta.ID[1])}", "Close writes /ID %s", c.Prog.Src(as.Rhs[0]))
 			}
 		}
 		// the cipher selection by version
